@@ -128,6 +128,46 @@ PROPS["C18"] = dict(
     assumptions=BIN_ASSUME,
 )
 
+
+def egen(pkgs_q, pkgs_t, shards=16, **kw):
+    d = dict(name="gen", module="gen", go=GO, test="TestGen", shards=shards, gen=True,
+             checks={"quick": pkgs_q, "thorough": pkgs_t}, timeout={"quick": 900, "thorough": 14400},
+             shrinktime={"quick": "40s", "thorough": "240s"})
+    d.update(kw)
+    return d
+
+
+GEN_ASSUME = [
+    "inputs are packages rendered from the generator's spec language; an input that does not type-check under the cff tag is discarded and counted, never reported",
+    "the freshly built cff binary is run as a separate process (cmd/cff/main.go, go/packages and the real go toolchain are in the loop)",
+]
+
+PROPS["C13"] = dict(
+    stages=[egen(4, 120), ebin(1, 10)],
+    rule="cases = generated packages (2-4 files, up to 6 directives each; flows and parallels in all spellings: literals, top-level functions, method values, imported functions, function variables, factories; aliased imports of context and cff; time imported plainly, under an alias, or another package imported under the name time; types from packages the file does not import; generic, interface, pointer, slice, map, named types; rt.Arg-wrapped arguments; build-constraint expressions), in base and source-map modes, with and without -auto-instrument; oracle = cff exits 0 or fails with diagnostics (a Go panic / exit 2 is a violation); every output parses, contains no call of a code-generation directive (AST scan), and the module builds without the cff tag (go build, go vet for generated test files); E-BIN stage additionally runs the programs; evaluations count directives; non-trivial = directive uses a non-default spelling (alias, colliding name, unimported or generic type, non-literal function, wrapped arguments); distinct = hash(spec, mode)",
+    assumptions=GEN_ASSUME,
+)
+PROPS["C14"] = dict(
+    stages=[egen(4, 120)],
+    rule="cases = packages of 6-15 files with one flow each; about 2/3 of the flows receive a single-defect mutation (drop a Params value, drop a providing task, second provider task, provider duplicated in Params, task returning a type twice, back edge through a task input or a predicate input at any distance, unused Params value, unconsumed output, stripped Invoke(true)), 1/6 of those a second one; oracle = independent reference well-formedness checker on the abstract spec: ill-formed => cff exits non-zero, a diagnostic names the file, no output file for that file while the other files are still generated; well-formed (incl. mutations that stay well-formed) => accepted and compiling; plus a deterministic Slice/Map element-vs-parameter lattice stage; non-trivial = mutated flow with >=3 tasks; distinct = hash(spec)",
+    assumptions=GEN_ASSUME + ["cff.Invoke(true) on a task that has outputs (docs allow, code rejects) is never generated"],
+)
+PROPS["C16"] = dict(
+    stages=[egen(4, 120)],
+    rule="cases = generated packages whose files carry drawn build-constraint headers (//go:build, // +build or both; expressions over cff,a,b,c with !, &&, || nesting up to depth 3, usable with cff: selected with cff and the drawn extra tags, excluded without cff), surrounding declarations and several directives per file, x_test.go names; oracle = (i) truth tables over all 16 tag assignments: generated selected == source selected with cff flipped, for the effective constraint and per syntax; (ii) masked-AST equality: every non-import declaration printed with directive calls / generated closures replaced by a placeholder must be identical, imports only added; (iii) directory snapshot (sha256) before/after: only the documented output paths appear, nothing else changes; non-trivial = non-plain header or >=2 directives in the file; distinct = hash(spec, mode)",
+    assumptions=GEN_ASSUME,
+)
+PROPS["C17"] = dict(
+    stages=[egen(1, 60)],
+    rule="cases = generated packages (collision pressure: aliased/colliding imports, unimported types, many hoisted expressions), base and source-map modes; oracle = byte equality of every output across three fresh cff processes, and of cff -file=f (alone) and -file=f=OUT against the whole-package output; non-trivial = package with >=2 files; distinct = hash(spec, mode)",
+    assumptions=GEN_ASSUME,
+)
+PROPS["C20"] = dict(
+    stages=[egen(3, 90)],
+    rule="cases = generated packages processed in base and in source-map mode; oracle = outputs parse in both modes and are equal after dropping all comments (incl. /*line*/ directives) and normalising whitespace; no magic token left; the source-map output compiles; non-trivial = file with >=2 directives; distinct = hash(spec, mode). Modifier-mode differential: see DESIGN.md (stage pending)",
+    assumptions=GEN_ASSUME,
+)
+
 HOOK_COMMITS = ["661e699"]
 ENGINES = [
     {"name": "E-SCHED-ST", "path": "sched/st_test.go", "serves_properties": ["C01", "C03", "C05", "C06", "C07", "C08", "C09", "C19"],
@@ -138,5 +178,9 @@ ENGINES = [
 ENGINES += [
     {"name": "E-BIN", "path": "gen/ebin_test.go", "serves_properties": ["C01", "C02", "C03", "C04", "C07", "C08", "C09", "C10", "C11", "C15", "C18"],
      "kind_free_text": "rapid outer loop: spec -> Go module (go 1.19) -> freshly built cff binary -> go test -c -> inner driver (rapid scenario search, reference interpreters in gen/rt)"},
+]
+ENGINES += [
+    {"name": "E-GEN", "path": "gen/egen_test.go", "serves_properties": ["C13", "C14", "C16", "C17", "C20"],
+     "kind_free_text": "rapid: spec -> Go module -> freshly built cff binary (base/source-map, -auto-instrument, -tags, -file) -> text oracles (go/parser, go/build/constraint truth tables, masked AST, sha256 snapshots, reference well-formedness checker) + go build"},
 ]
 NOT_YET = {}
